@@ -255,13 +255,16 @@ def rule_process(ctx):
               "a segment is not stored only when untracked / empty / foreign / already parsed (%d non-storing paths examined)" % nskip,
               "a payload-carrying segment of a tracked connection can pass through process_tcp_packet without being stored, under %s: data carried by such a segment "
               "(a FIN-piggybacked tail of the head) never reaches reassembly and the message is not reported" % unexplained, ctx.loc(b))
-    # R5 flow creation
-    ins = [(blk, t) for blk, t in Q.calls(b, "::insert") if "TtlCache" in callee_of(t)]
+    # R5 flow creation - read on process_tcp_packet with TcpFlow::init written out at its call (the same statements whether the
+    # constructor helper exists or the struct literal stands at the insert)
+    v = P.inlined_view(b.path, ("TcpFlow::init",))
+    VS = T.Slicer(v, P)
+    ins = [(blk, t) for blk, t in Q.calls(v, "::insert") if "TtlCache" in callee_of(t)]
     if len(ins) != 1:
         ctx.cannot("R5", "flow-insert", "expected one flow insert, found %d" % len(ins), ctx.loc(b))
         return
     iblk, it = ins[0]
-    conds = Q.canon_conds(P, T.dom_conds(b, S, iblk))
+    conds = Q.canon_conds(P, T.dom_conds(v, VS, iblk))
     syn = False
     untracked = False
     for c in conds:
@@ -271,46 +274,68 @@ def rule_process(ctx):
                 syn = (c[1] == "Ne") == c[4]
         if c[0] == "variant" and ((c[2] == "None" and c[3]) or (c[2] == "Some" and not c[3])):
             untracked = True
-    ia = Q.call_args(b, S, iblk, it)
+    ia = Q.call_args(v, VS, iblk, it)
     flow = T.strip(ia[2])
-    init_ok = flow[0] == "call" and flow[1].endswith("TcpFlow::init")
-    if init_ok:
-        fa = [T.strip(x) for x in flow[2]]
-        init_ok = (fa[0][0] == "param" and fa[0][2] == "src_ip" and fa[2][0] == "param" and fa[2][2] == "dst_ip"
-                   and T.has_call(fa[1], "get_source") and T.has_call(fa[3], "get_destination"))
+    is_flow = flow[0] == "agg" and (flow[2] or "").endswith("TcpFlow")
+    m = {}
+    if is_flow:
+        names = [f["name"] for f in P.adt("huginn_net_http::http_process::TcpFlow")["variants"][0]["fields"]]
+        m = dict(zip(names, flow[4]))
+
+    def _is_param(t_, nm):
+        t_ = T.strip(t_)
+        return t_[0] == "param" and t_[2] == nm
+    init_ok = is_flow and _is_param(m["client_ip"], "src_ip") and _is_param(m["server_ip"], "dst_ip") and \
+        T.has_call(m["client_port"], "get_source") and T.has_call(m["server_port"], "get_destination")
     ctx.check(syn and untracked and init_ok, "R5", "flow-insert", "flow created on SYN for an untracked connection, client = sender of the SYN",
-              "flow creation: syn=%s untracked=%s init(src as client)=%s" % (syn, untracked, init_ok), ctx.loc(b, iblk))
-    # TcpFlow::init roles
-    ib = P.method1("TcpFlow", "init")
-    for (rb, j, term, _c) in TB.return_sites(ib, P):
-        if term[0] == "agg":
-            names = [f["name"] for f in P.adt("huginn_net_http::http_process::TcpFlow")["variants"][0]["fields"]]
-            m = dict(zip(names, term[4]))
-            okk = (T.strip(m["client_ip"])[2] == "src_ip" and T.strip(m["server_ip"])[2] == "dst_ip" and T.strip(m["client_port"])[2] == "src_port"
-                   and T.strip(m["server_port"])[2] == "dst_port" and T.strip(m["client_http_parsed"])[1] is False and T.strip(m["server_http_parsed"])[1] is False)
-            ctx.check(okk, "R5", "TcpFlow::init", "client = (src), server = (dst), flags clear", "TcpFlow::init assigns roles %s" % {k: T.pp(v) for k, v in m.items()}, ctx.loc(ib))
-            # the first segment (the SYN, which may carry data: TCP Fast Open) is part of the client stream whatever it contains
-            # (`vec![x]` writes x through a raw pointer, so the element is not visible in the vector's origin term: the parameter must be
-            # moved somewhere on a block every return passes through, and nothing decides the construction)
-            pl = [i_ for i_ in range(1, ib.arg_count + 1) if ib.local_name(i_) == "tcp_data"]
-            use_blocks = set()
-            for bi_ in sorted(ib.reachable):
-                blk_ = ib.blocks[bi_]
-                ops_ = []
-                for s_ in blk_["s"]:
-                    r_ = s_.get("r") or {}
-                    ops_ += [r_.get(k_) for k_ in ("o", "a", "b") if isinstance(r_.get(k_), dict)] + list(r_.get("ops") or [])
-                if blk_["t"]["k"] == "call":
-                    ops_ += blk_["t"]["args"]
-                for o_ in ops_:
-                    p_ = o_.get("m") or o_.get("c")
-                    if p_ is not None and pl and p_["l"] == pl[0] and not p_["pr"]:
-                        use_blocks.add(bi_)
-            first_kept = bool(use_blocks) and all(C.dominates(ib, u_, rb) for u_ in use_blocks)
-            cond_free = not [c for c in Q.canon_conds(P, T.dom_conds(ib, T.Slicer(ib, P), rb)) if c[0] in ("bool", "cmp")]
-            ctx.check(first_kept and cond_free, "R2", "TcpFlow::init:first-segment", "client_data starts with the opening segment, unconditionally",
-                      "TcpFlow::init does not always keep the opening segment (client_data = %s): request bytes carried by the SYN are lost and the rebuilt stream starts "
-                      "mid-head" % T.pp(m["client_data"])[:60], ctx.loc(ib))
+              "flow creation: syn=%s untracked=%s init(src as client)=%s" % (syn, untracked, init_ok), ctx.loc(b, iblk if iblk < len(b.blocks) else None))
+    if is_flow:
+        okk = init_ok and not T.has_call(m["client_port"], "get_destination") and not T.has_call(m["server_port"], "get_source") and \
+            T.strip(m["client_http_parsed"])[0] == "const" and T.strip(m["client_http_parsed"])[1] is False and \
+            T.strip(m["server_http_parsed"])[0] == "const" and T.strip(m["server_http_parsed"])[1] is False
+        ctx.check(okk, "R5", "TcpFlow::init", "client = (src), server = (dst), flags clear", "the new flow is built with roles %s" % {k: T.pp(x)[:40] for k, x in m.items()},
+                  ctx.loc(b))
+        # the first segment (the SYN, which may carry data: TCP Fast Open) is part of the client stream whatever it contains
+        # (`vec![x]` writes x through a raw pointer, so the element is not visible in the vector's origin term: the segment value built
+        # from this packet must be moved on a block every path to the insert passes through, and nothing between the two decides it)
+        segs = Q.aggregates(v, "TcpData")
+        first_kept = False
+        cond_free = False
+        if len(segs) >= 1:
+            # the TcpData built on the way to the insert
+            cands = [(i_, j_, s_) for (i_, j_, s_) in segs if C.dominates(v, i_, iblk)]
+            if len(cands) == 1:
+                si, sj, ss = cands[0]
+                roots = {ss["p"]["l"]}
+                use_blocks = set()
+                changed = True
+                while changed:
+                    changed = False
+                    for bi_ in sorted(v.reachable):
+                        blk_ = v.blocks[bi_]
+                        for s_ in blk_["s"]:
+                            r_ = s_.get("r") or {}
+                            ops_ = [r_.get(k_) for k_ in ("o", "a", "b") if isinstance(r_.get(k_), dict)] + list(r_.get("ops") or [])
+                            for o_ in ops_:
+                                p_ = o_.get("m") or o_.get("c")
+                                if p_ is not None and p_["l"] in roots and not p_["pr"]:
+                                    if r_.get("k") == "use" and not s_["p"]["pr"] and s_["p"]["l"] not in roots:
+                                        roots.add(s_["p"]["l"])
+                                        changed = True
+                                    elif r_.get("k") != "use":
+                                        use_blocks.add(bi_)
+                        if blk_["t"]["k"] == "call":
+                            for o_ in blk_["t"]["args"]:
+                                p_ = o_.get("m") or o_.get("c")
+                                if p_ is not None and p_["l"] in roots and not p_["pr"]:
+                                    use_blocks.add(bi_)
+                use_blocks.discard(si)
+                first_kept = bool(use_blocks) and all(C.dominates(v, u_, iblk) or u_ == iblk for u_ in use_blocks)
+                before = Q.canon_conds(P, T.dom_conds(v, VS, si))
+                cond_free = not [c for c in conds if c[0] in ("bool", "cmp") and c not in before]
+        ctx.check(first_kept and cond_free, "R2", "TcpFlow::init:first-segment", "client_data starts with the opening segment, unconditionally",
+                  "the new flow does not always keep the opening segment (client_data = %s): request bytes carried by the SYN are lost and the rebuilt stream starts "
+                  "mid-head" % T.pp(m["client_data"])[:60], ctx.loc(b))
 
 
 def rule_flow_keys(ctx):
